@@ -48,7 +48,7 @@ fn main() {
                     std::process::exit(2);
                 }
             };
-            let body: Value = match serde_json::from_str(&text) {
+            let body: Value = match crate::report::from_json(&text) {
                 Ok(v) => v,
                 Err(e) => {
                     eprintln!("harness error: {} is not JSON: {}", path, e);
